@@ -286,7 +286,7 @@ func (r *runner) open(first bool) error {
 func (r *runner) deliver(blk *block.Block) (alive bool) {
 	r.cur, r.nSt = blk, 0
 	b := r.w.p(blk.Header().ID())
-	r.evs = append(r.evs, trace.Ev{"e": "Begin", "b": b})
+	r.evs = append(r.evs, trace.Ev{"e": "Begin", "b": b, "own": r.w.own[blk.Header().ID()]})
 	beginIdx := len(r.evs) - 1
 	defer func() {
 		r.cur = nil
